@@ -435,21 +435,31 @@ func judgePackedPath(c *Ctx, mod int64, xp xPath, elem map[Sym]lfElemRef, cLin L
 			return "a way round the loop does not store exactly one character into the result"
 		}
 		// the loop variable: stride 1 from 0, and the store's index is it
-		var iSym *Sym
+		// the character index: a loop-carried integer advancing by one whose value, less what it
+		// started from, is where the character is stored — `for i := 0; i < c; i++` carries i
+		// itself, `for i := range x` carries i−1
+		var iLin *Lin
 		for _, sy := range it.Meta.Syms {
-			if it.Meta.Stride[sy] == 1 {
-				if ent, has := it.Meta.Entry[sy]; has {
-					if k, isK := ent.isConst(); isK && k == 0 {
-						s := sy
-						iSym = &s
-					}
-				}
+			if it.Meta.Stride[sy] != 1 || it.Store.Idx == nil {
+				continue
+			}
+			ent, has := it.Meta.Entry[sy]
+			if !has {
+				continue
+			}
+			k, isK := ent.isConst()
+			if !isK {
+				continue
+			}
+			cand := linSym(sy).addConst(-k)
+			if eq(it.Meta.Cons, *it.Store.Idx, cand) {
+				iLin = &cand
 			}
 		}
-		if iSym == nil {
-			return "no character index running 0, 1, 2, …"
+		if iLin == nil {
+			return "no character index running 0, 1, 2, … at which the character is stored"
 		}
-		i := linSym(*iSym)
+		i := *iLin
 		if it.Store.Idx == nil || !eq(it.Meta.Cons, *it.Store.Idx, i) {
 			return "the character is not stored at the character index"
 		}
